@@ -280,6 +280,8 @@ def run(ctx):
     ctx.extra['pairs_with_results'] = fired
     ctx.sample({'pair': [canonical(pairs['en'][0][0]), canonical(pairs['en'][0][1])]})
     ctx.sample({'conflict_pair': ['S[X]/(S[X]\\NP[X])', 'S[dcl]\\NP[b]']})
+    import cli_common
+    cases += cli_common.read_params_model_cases(ctx, ctx.budget(24, 240))      # read_params next to its Lean model (Config.lean)
     ctx.extra['skipped_unsupported'] = common.compare_with_model(ctx, setup_lines + cases)
     import cli_common
     cli_common.cli_suite(ctx, ctx.budget(16, 160))      # the same through the command line itself
